@@ -9,6 +9,7 @@ mod compilelayer;
 mod rtproto;
 mod seslayer;
 mod findlayer;
+mod find2;
 
 pub fn dispatch_answer(req: &str) -> String {
     let parts: Vec<&str> = req.split(' ').collect();
@@ -48,7 +49,13 @@ fn main() {
         "find-c10" => findlayer::gen_c10(&mut w, &tier, seed),
         "find-c12" => findlayer::gen_c12(&mut w, &tier, seed),
         "find-c13" => findlayer::gen_c13(&mut w, &tier, seed),
-        "find-c17" => findlayer::gen_c17(&mut w, &tier, seed),
+        "find-c17" => { findlayer::gen_c17(&mut w, &tier, seed); find2::gen_c17(&mut w, &tier, seed) }
+        "find-c01" => find2::gen_c01(&mut w, &tier, seed),
+        "find-c02" => find2::gen_c02(&mut w, &tier, seed),
+        "find-c03" => find2::gen_c03(&mut w, &tier, seed),
+        "find-c11" => find2::gen_c11(&mut w, &tier, seed),
+        "find-c14" => find2::gen_c14(&mut w, &tier, seed),
+        "find-c16" => find2::gen_c16(&mut w, &tier, seed),
         "find-c18" => findlayer::gen_c18(&mut w, &tier, seed),
         "find-c19" => findlayer::gen_c19(&mut w, &tier, seed),
         "find-c20" => findlayer::gen_c20(&mut w, &tier, seed),
